@@ -47,6 +47,8 @@ const BLOBS: &[(&str, &[u8])] = &[
     ("test rdi,rdi; je +3; inc rax; ret", &[0x48, 0x85, 0xff, 0x74, 0x03, 0x48, 0xff, 0xc0, 0xc3]),
     ("mov [rsp-8],rdi; mov rax,[rsp-8]; ret", &[0x48, 0x89, 0x7c, 0x24, 0xf8, 0x48, 0x8b, 0x44, 0x24, 0xf8, 0xc3]),
     ("jmp rax", &[0xff, 0xe0]),
+    // both successors of the conditional jump coincide: falcon's lifter emits ONE guarded edge
+    ("test rdi,rdi; je +0; ret", &[0x48, 0x85, 0xff, 0x74, 0x00, 0xc3]),
 ];
 
 const KLASSES: [&str; 5] = ["plain", "broken-guards", "intrinsics", "branches", "lift"];
